@@ -1433,10 +1433,24 @@ struct CaseOut {
     fails: Vec<serde_json::Value>,
     stats: Stats,
     f3_hits: u64,
+    /// (fate of deal 0, escrow and locked of client 0 and of miner 3, burnt) at the end of the history
+    fin: Option<(String, [i128; 5])>,
 }
 
 fn run_case(mc: &MCase, genr: Option<(Prng, usize)>, prop: &str) -> CaseOut {
     let w = setup(mc.interval);
+    // schedule cases are built before a VM exists: pcoll = 0 stands for "the current minimum"
+    let mut mc = mc.clone();
+    for op in mc.ops.iter_mut() {
+        if let MOp::Publish { deals, .. } = op {
+            for d in deals.iter_mut() {
+                if d.pcoll == 0 && d.ccoll == 777 {
+                    d.pcoll = min_pcoll(&w, d.size);
+                }
+            }
+        }
+    }
+    let mc = &mc;
     let mut stats = Stats::default();
     let mut snap = snapshot(&w);
     let init = format!("init {}", cf::z(mc.interval));
@@ -1491,7 +1505,52 @@ fn run_case(mc: &MCase, genr: Option<(Prng, usize)>, prop: &str) -> CaseOut {
         steps.push((coq, o));
         snap = post;
     }
-    CaseOut { case: Case { init, steps, nontrivial: acc && rej }, done: MCase { interval: mc.interval, ops: done }, fails, stats, f3_hits }
+    let fin = g.deals.get(&0).map(|r| {
+        let (c, m) = (pid(&w, 0), pid(&w, 3));
+        (format!("{:?}", r.fate), [snap.esc(c), snap.lck(c), snap.esc(m), snap.lck(m), snap.burnt])
+    });
+    CaseOut { case: Case { init, steps, nontrivial: acc && rej }, done: MCase { interval: mc.interval, ops: done }, fails, stats, f3_hits, fin }
+}
+
+/// C07: every schedule of three (epoch, Settle | Cron | Terminate) events with non-decreasing epochs
+/// taken from {s-1, s, s+1, mid, e-1, e, e+1, e+interval} on one activated deal, followed by a final
+/// settlement after the end; 120 epoch triples x 27 kind triples = 3240 schedules
+fn schedules(interval: i64) -> Vec<MCase> {
+    let s = 100i64;
+    let e = s + MIN_DUR;
+    let b = [s - 1, s, s + 1, (s + e) / 2, e - 1, e, e + 1, e + interval];
+    let deal = PDeal {
+        client: 0, client_key_form: false, provider: 3, piece: 1, size: 2048, verified: false, label: 0,
+        start: s, end: e, price: 10, pcoll: 0, ccoll: 777, sig: 0, bad_piece_cid: false,
+    };
+    let mut out = vec![];
+    for i in 0..8 {
+        for j in i..8 {
+            for k in j..8 {
+                for kinds in 0..27u32 {
+                    let mut ops = vec![
+                        MOp::AddBalance { from: 0, epoch: 0, who: 0, value: 100_000_000 },
+                        MOp::AddBalance { from: 5, epoch: 0, who: 3, value: 100_000_000_000 },
+                        MOp::Publish { caller: 7, epoch: 5, deals: vec![deal.clone()] },
+                        MOp::Activate { caller: 3, epoch: 10, sectors: vec![(1, e + interval + 10, vec![0])] },
+                    ];
+                    let mut kk = kinds;
+                    for ep in [b[i], b[j], b[k]] {
+                        ops.push(match kk % 3 {
+                            0 => MOp::Settle { caller: P_STRANGER, epoch: ep, ids: vec![0] },
+                            1 => MOp::Cron { caller: P_CRON, epoch: ep },
+                            _ => MOp::Terminate { caller: 3, epoch: ep, pepoch: ep, sectors: vec![1] },
+                        });
+                        kk /= 3;
+                    }
+                    ops.push(MOp::Settle { caller: P_STRANGER, epoch: e + interval + 1, ids: vec![0] });
+                    ops.push(MOp::Withdraw { caller: 0, epoch: e + interval + 2, who: 0, amount: 1 << 100 });
+                    out.push(MCase { interval, ops });
+                }
+            }
+        }
+    }
+    out
 }
 
 fn merge(into: &mut Stats, s: Stats) {
@@ -1504,7 +1563,7 @@ fn merge(into: &mut Stats, s: Stats) {
 fn main() {
     let a = cf::parse_args();
     let prop: String = a.rest.get("prop").cloned().unwrap_or_else(|| "C06".to_string());
-    let tag = format!("market_{}", prop);
+    let tag = if a.rest.get("mode").map(|m| m == "sched").unwrap_or(false) { format!("marketsched_{}", prop) } else { format!("market_{}", prop) };
     let mut stats = Stats::default();
     let header = "From VF Require Import Model.Market Base.Corr.\nFrom Coq Require Import ZArith List.\nImport ListNotations.\nOpen Scope Z_scope.\n";
     let mut cw = CaseWriter::new(&a.out, header, "check_case", a.shards);
@@ -1542,12 +1601,22 @@ fn main() {
             }
         }
     }
+    let mode = a.rest.get("mode").cloned().unwrap_or_default();
+    let sched: Vec<MCase> = if mode == "sched" {
+        let all = schedules(86400);
+        let n = a.cases.min(all.len()).max(1);
+        (0..n).map(|k| all[(k * all.len() / n + (a.seed as usize % (all.len() / n).max(1))) % all.len()].clone()).collect()
+    } else {
+        vec![]
+    };
+    let sched_ref = &sched;
     // generated histories, in parallel (each has its own VM); results are absorbed in case order
     let mut root = Prng::new(a.seed);
-    let jobs: Vec<(usize, Prng)> = (0..a.cases).map(|k| (k, root.fork(k as u64))).collect();
+    let ncases = if mode == "sched" { sched.len() } else { a.cases };
+    let jobs: Vec<(usize, Prng)> = (0..ncases).map(|k| (k, root.fork(k as u64))).collect();
     let threads = std::thread::available_parallelism().map(|x| x.get()).unwrap_or(4).min(16).max(1);
     let len = a.len;
-    let mut results: Vec<Option<CaseOut>> = (0..a.cases).map(|_| None).collect();
+    let mut results: Vec<Option<CaseOut>> = (0..ncases).map(|_| None).collect();
     let chunks: Vec<Vec<(usize, Prng)>> = (0..threads).map(|t| jobs.iter().filter(|(k, _)| k % threads == t).cloned().collect()).collect();
     let prop_ref = &prop;
     let outs: Vec<Vec<(usize, CaseOut)>> = std::thread::scope(|sc| {
@@ -1557,6 +1626,9 @@ fn main() {
                 sc.spawn(move || {
                     ch.into_iter()
                         .map(|(k, mut r)| {
+                            if !sched_ref.is_empty() {
+                                return (k, run_case(&sched_ref[k], None, prop_ref));
+                            }
                             let interval = match r.below(100) { 0..=44 => 86400, 45..=64 => 2880, 65..=84 => 100, _ => 7 };
                             let mc = MCase { interval, ops: vec![] };
                             (k, run_case(&mc, Some((r, len)), prop_ref))
@@ -1572,9 +1644,31 @@ fn main() {
             results[k] = Some(o);
         }
     }
+    // C07 path independence on the implementation: schedules with the same fate of the deal end in
+    // the same balances
+    let mut by_fate: BTreeMap<String, ([i128; 5], MCase)> = BTreeMap::new();
+    let mut fate_hist: BTreeMap<String, u64> = BTreeMap::new();
+    let mut path_fail: Vec<serde_json::Value> = vec![];
     for o in results.into_iter().flatten() {
+        if mode == "sched" {
+            if let Some((f, v)) = &o.fin {
+                *fate_hist.entry(f.clone()).or_insert(0) += 1;
+                match by_fate.get(f) {
+                    None => { by_fate.insert(f.clone(), (*v, o.done.clone())); }
+                    Some((v0, c0)) => {
+                        if v0 != v && prop == "C07" {
+                            path_fail.push(json!({"class": "path-dependence", "step": 0,
+                                "what": [format!("two schedules with the same fate {} end in different balances {:?} vs {:?}; the other schedule: {}", f, v0, v, serde_json::to_string(c0).unwrap())],
+                                "case": o.done.clone()}));
+                        }
+                    }
+                }
+            }
+        }
         absorb(o, &mut cw, &mut stats);
     }
+    for f in path_fail { stats.monitor_fail(f); }
+    if mode == "sched" { stats.extra.insert("fates".into(), json!(fate_hist)); }
     stats.extra.insert("f3_hits".into(), json!(f3_total));
     cw.finish(&stats, &tag);
 }
